@@ -16,6 +16,7 @@ import os
 import shutil
 import sqlite3
 import struct
+import sys
 import tempfile
 import types
 
@@ -159,6 +160,23 @@ def gen_cases(rng, tier):
                             if nm not in [p[0] for p in pre]:
                                 pre.append([nm, r.randint(0, 2)])
         cases.append({"kind": "tmpl", "ext": ext, "pre": pre, "writes": writes})
+    # ---- templates that use `ts` (= the record's own _generated, in the offset it carries) in a process whose DISPLAY
+    # zone (FLOW_RECORD_TZ, read at import) is something else: the file names come from the record, not from the display
+    rt = rng.fork("tmplts")
+    for _ in range({"quick": 6, "thorough": 150, "search": 10}[tier]):
+        ext = rt.choice([".records", ".records.gz", ".json"])
+        keys = rt.sample(["A", "B", "k-1"], rt.randint(1, 2))
+        t = 1704067200 + rt.randint(0, 5)
+        writes, gens = [], []
+        base = [rt.randint(2001, 2037), rt.randint(1, 12), rt.randint(1, 28)]
+        for _ in range(rt.choice([2, 3, 4, 6])):
+            t += rt.choice([0, 0, 1, 61])
+            writes.append([rt.choice(keys), t])
+            gens.append([base + [rt.choice([0, 14, 15, 22, 23]), rt.randint(0, 59), 0, 0],
+                         rt.choice([0, 0, 0, 32400, -18000, 19800])])
+        cases.append({"kind": "tmpl", "ext": ext, "pre": [], "writes": writes,
+                      "tsfmt": {"zone": rt.choice(["Asia/Tokyo", "America/New_York", "Pacific/Kiritimati", "UTC"]),
+                                "gens": gens}})
     # the witness shape of DESIGN finding #15 in every extension
     for ext in exts:
         cases.append({"kind": "tmpl", "ext": ext, "pre": [["A" + ext, 2]],
@@ -455,7 +473,56 @@ def _read_ns(path):
         return {"error": type(e).__name__, "msg": str(e)[:100]}
 
 
-def _run_tmpl(case):
+def _pathkey(case, i):
+    """the name the `{ts:%Y%m%dT%H}_{record.key}` template gives write #i - from the case alone"""
+    f = case["tsfmt"]["gens"][i][0]
+    return "%04d%02d%02dT%02d_%s" % (f[0], f[1], f[2], f[3], case["writes"][i][0])
+
+
+def _tm_view(case, obs):
+    """a `tsfmt` case seen as a plain template case: the template path of write #i is _pathkey(i)"""
+    if "tsfmt" not in case:
+        return case, obs, None
+    c2 = dict(case, writes=[[_pathkey(case, i), sec] for i, (_, sec) in enumerate(case["writes"])])
+    del c2["tsfmt"]
+    o2 = dict(obs)
+    files = []
+    for nm, c in obs.get("files", []):
+        if isinstance(c, list):
+            cc = []
+            for k, n in c:
+                if k != "pre":
+                    if not (0 <= n < len(case["writes"])) or k != case["writes"][n][0]:
+                        return c2, o2, f"file {nm} holds a record (key {k!r}, n {n}) that was never written"
+                    k = _pathkey(case, n)
+                cc.append([k, n])
+            c = cc
+        files.append([nm, c])
+    o2["files"] = files
+    return c2, o2, None
+
+
+_TM_CHILD = r"""
+import sys, json, warnings
+sys.path.insert(0, %(verif)r); sys.path.insert(0, %(repo)r)
+warnings.simplefilter("ignore")
+from harness.props import C17
+case = json.loads(sys.stdin.read())
+print(json.dumps(C17._run_tmpl(case, child=True)))
+"""
+
+
+def _run_tmpl(case, child=False):
+    if "tsfmt" in case and not child:
+        import subprocess
+        verif = os.path.dirname(os.path.dirname(os.path.dirname(os.path.abspath(__file__))))
+        code = _TM_CHILD % {"verif": verif, "repo": os.environ.get("VERIF_REPO", "/repo")}
+        env = dict(os.environ, PYTHONDONTWRITEBYTECODE="1", FLOW_RECORD_TZ=case["tsfmt"]["zone"])
+        p = subprocess.run([sys.executable, "-c", code], input=json.dumps(case), capture_output=True, text=True, env=env,
+                           timeout=120)
+        if p.returncode != 0:
+            return {"outcomes": ["raised:child:" + p.stderr[-200:]], "pre": [], "files": []}
+        return json.loads(p.stdout.strip().splitlines()[-1])
     import flow.record.stream as frs
     from flow.record import RecordDescriptor
     from harness import values as V
@@ -479,13 +546,16 @@ def _run_tmpl(case):
             _write_stream_file(os.path.join(d, nm), ns, "pre")
             pre.append([nm, ns])
         frs.datetime = fake
-        w = frs.PathTemplateWriter(os.path.join(d, "{record.key}" + case["ext"]))
+        w = frs.PathTemplateWriter(os.path.join(d, ("{ts:%Y%m%dT%H}_" if "tsfmt" in case else "") + "{record.key}"
+                                                + case["ext"]))
         outcomes = []
         try:
             for i, (key, sec) in enumerate(case["writes"]):
                 clock["t"] = sec
                 try:
-                    w.write(D(key=key, n=i, _generated=V.build(G)))
+                    gen = G if "tsfmt" not in case else ["dt", case["tsfmt"]["gens"][i][0],
+                                                         ["fixed", case["tsfmt"]["gens"][i][1], 0], 0]
+                    w.write(D(key=key, n=i, _generated=V.build(gen)))
                     outcomes.append("ok")
                 except Exception as e:
                     outcomes.append("raised:" + type(e).__name__ + ":" + str(e)[:80])
@@ -619,6 +689,9 @@ def _oracle_split(case, obs):
 
 
 def _oracle_tmpl(case, obs):
+    case, obs, bad = _tm_view(case, obs)
+    if bad:
+        return bad
     if any(o != "ok" for o in obs["outcomes"]):
         return f"template writer raised: {[o for o in obs['outcomes'] if o != 'ok'][0]}"
     files = obs["files"]
@@ -706,6 +779,7 @@ def model_op(case, obs):
         return {"op": "c17.split", "adapter": case["adapter"], "limit": case["limit"],
                 "hist": "w" * case["n"] + case["closing"], "base": case["target"], "suffixLen": case["suffix"]}
     if k == "tmpl":
+        case, obs, _ = _tm_view(case, obs)
         return {"op": "c17.tmpl", "fs": [[nm, ns] for nm, ns in obs["pre"]],
                 "writes": [[key + case["ext"], _stamp(sec), i] for i, (key, sec) in enumerate(case["writes"])]}
     if k == "frames":
@@ -781,6 +855,8 @@ def nontrivial(case, obs):
     if k == "split":
         return len(obs["parts"]) >= 2
     if k == "tmpl":
+        if "tsfmt" in case:
+            return len(obs["files"]) >= 2
         return len(obs["files"]) > len({w[0] for w in case["writes"]})
     if k == "frames":
         return len(case["parts"]) >= 2
@@ -794,7 +870,7 @@ def classify(case, obs):
     if k == "split":
         return [f"split:{case['target']}", f"split:parts={min(len(obs['parts']), 5)}", f"split:closing={case['closing']}"]
     if k == "tmpl":
-        return [f"tmpl:ext={case['ext'] or 'none'}", f"tmpl:pre={len(case['pre'])}",
+        return [f"tmpl:ext={case['ext'] or 'none'}" + (":ts-template" if "tsfmt" in case else ""), f"tmpl:pre={len(case['pre'])}",
                 f"tmpl:files={min(len(obs['files']), 8)}"]
     return "frames"
 
@@ -806,7 +882,11 @@ def shrink(case):
             yield dict(case, hist=h[:i] + h[i + 1:])
     elif case["kind"] == "tmpl":
         for i in range(len(case["writes"])):
-            yield dict(case, writes=case["writes"][:i] + case["writes"][i + 1:])
+            c = dict(case, writes=case["writes"][:i] + case["writes"][i + 1:])
+            if "tsfmt" in case:
+                g = case["tsfmt"]["gens"]
+                c["tsfmt"] = dict(case["tsfmt"], gens=g[:i] + g[i + 1:])
+            yield c
         for i in range(len(case["pre"])):
             yield dict(case, pre=case["pre"][:i] + case["pre"][i + 1:])
     elif case["kind"] == "split" and case["n"] > 0:
